@@ -3,24 +3,23 @@ from props_common import *
 PROP = dict(
     title="Binary Merkle trees behave like fresh trees across reset and reload",
     family="bmt", harness="bmt", run_vo="Run/Bmt.vo",
-    theorems=["C11_refine_partial", "C11_refine_from_any_state", "C11_refuses", "C11_peaks_checked",
+    theorems=["C11_refine_full", "C11_refine_full_from_any_state", "C11_peaks_all", "C11_sides_all",
+              "C11_refine_partial", "C11_refine_from_any_state", "C11_refuses", "C11_peaks_checked",
               "C11_refine_with_proofs_partial", "C11_refine_with_proofs_from_any_state", "C11_sides_checked"],
-    open_statements=[
-        "C11_full_statement: additionally in-range proof requests at counts above 128 (side positions of position_path are checked by exhaustive computation up to 128 leaves only; proved for larger counts under the premise sides_ok) and reloads at counts above 4096 (peak positions are checked by exhaustive computation up to 4096 only)",
-    ],
+    open_statements=[],
     translators=[],
     trusted_base=[SHA_NOTE,
                   "model of merkle_tree.rs (push/reset/load/prove/root) in Merkle/BinaryModel.v (hand-written, tied by correspondence)",
-                  "vm_compute inside the proof of C11_peaks_checked (finite sweep over counts 0..4096, bound stated in the theorem)",
-                  "vm_compute inside the proof of C11_sides_checked (finite sweep over all (index, count) with count <= 128, bound stated in the theorem)"],
+                  "vm_compute inside the proofs of C11_peaks_checked / C11_sides_checked only (finite sweeps, bounds stated in those theorems; the full theorems do not depend on them)"],
     assumptions=["fewer than 2^63 leaves", "reloads only at a recorded count (k <= current leaf count)"],
     rule=("histories of push/reset/load(k<=count)/prove/root of up to 40 ops on one storage-backed tree over a shared StorageMap; corpus witnesses of the reset defect run first; "
           "each observation vs the Gallina L1 model; oracle: each observation vs a fresh-tree specification (independent RFC MTH/PATH in the harness); "
           "distinct = op-kind string of the history; non-trivial = at least 3 ops"),
-    level_text=("Machine-checked refinement proof (Coq): for every history of pushes, resets, reloads at a recorded count, root/count queries, out-of-range proof "
-                "requests and in-range proof requests (whose side positions were checked: all counts up to 128) the storage-backed tree model reports exactly what a fresh tree holding the leaves since the last reset reports (invariant: peak stack = "
-                "aligned blocks, node table holds every complete block's RFC hash under its in-order position), by induction over the history"),
-    level_note=("Partial: in-range proofs at counts > 128 (unless sides_ok holds) and reload counts > 4096 are outside the proved scope (open_statements). The defect found by this check "
+    level_text=("Machine-checked refinement proof (Coq) of the full statement: for every history of pushes (fewer than 2^63 leaves), resets, reloads at any recorded count, root/count "
+                "queries and proof requests at any index the storage-backed tree model reports exactly what a fresh tree holding the leaves since the last reset reports (invariant: "
+                "peak stack = aligned blocks, node table holds every complete block's RFC hash under its in-order position; peak and side positions of position_path characterised in "
+                "general), by induction over the history"),
+    level_note=("Full statement proved (C11_refine_full); earlier partial theorems kept. The defect found by this check "
                 "(reset did not clear leaves_count) was repaired by fix commit a6d0397 in /repo; the model mirrors the repaired code. Trusted: Coq kernel, L1 model tied by "
                 "differential testing, harness oracle."),
     technique="Coq refinement proof by induction over operation histories + differential model/impl run",
